@@ -86,7 +86,7 @@ class ToExec:
     def __init__(self, loop: steploop.StepLoop, *, limit: int = 1, to: Optional[dict] = None,
                  body: str = "none", expect100: bool = False, thr: float = 5.0,
                  big_chunk: bool = False, chunked_resp: bool = True, offset: float = 0.0,
-                 cutsel: int = 0) -> None:
+                 cutsel: int = 0, horizon: float = HORIZON) -> None:
         import aiohttp
         from aiohttp import ClientTimeout
 
@@ -112,7 +112,8 @@ class ToExec:
         self.events: List[dict] = []
         self.fault_injected = False
         self.pause_next_conn_of: Optional[str] = None
-        self.watchdog = loop.call_at(HORIZON + offset, lambda: None)
+        self.horizon = horizon
+        self.watchdog = loop.call_at(horizon, lambda: None)
         self.faulted_conns: List[int] = []     # connections the victim held / was creating when it failed
         self.v_end_recorded = False
         self.drifts: List[str] = []
@@ -302,7 +303,7 @@ class ToExec:
         return True
 
     def tick(self) -> bool:
-        if self.loop.time() >= HORIZON:
+        if self.loop.time() >= self.horizon:
             return False
         self.loop.advance()
         self.rec("tick")
@@ -409,7 +410,6 @@ class ToExec:
             if pc is None:
                 continue
             if rq.t_written < 0 and rq.status == "pending":
-                want = 1 + sum(1 for h in pc.history[:-1])
                 try:
                     done = len(pc.requests())
                 except Exception:  # noqa: BLE001
@@ -452,6 +452,7 @@ class ToExec:
             "timers": self._timer_kinds(),
             "dnsw": dnsw,
             "cancelreq": bool(self.reqs["v"].cancel_effective),
+            "gotresp": bool(self.reqs["v"].got_response),
             "fault": self.fault_injected,
         }
 
@@ -542,7 +543,7 @@ class ToExec:
         self.loop._vtime = 0.0
 
     def trace(self, src: str) -> dict:
-        cfg = {"limit": self.limit, "thr": ms(self.thr), "horizon": ms(HORIZON),
+        cfg = {"limit": self.limit, "thr": ms(self.thr), "horizon": ms(self.horizon),
                "to": {k: ms(v) for k, v in self.to.items()}}
         return {"cfg": cfg, "src": src, "events": self.events}
 
@@ -606,3 +607,199 @@ def write_cfg(name: str, invariants: Optional[List[str]] = None, **kw: Any) -> s
     with open(p, "w") as f:
         f.write(txt)
     return p
+
+
+# ---------------------------------------------------------------- spec -> code (driver A)
+_re_edge = re.compile(r'^(-?\d+) -> (-?\d+) \[label="((?:[^"\\]|\\.)*)"')
+_re_node = re.compile(r'^(-?\d+) \[label="((?:[^"\\]|\\.)*)"(.*)\];?$')
+_act = re.compile(r"(\w+)(?:\((.*)\))?$")
+
+
+def _unesc(s: str) -> str:
+    return s.replace("\\n", "\n").replace('\\"', '"').replace("\\\\", "\\")
+
+
+def parse_action(label: str) -> tuple:
+    m = _act.match(label.strip())
+    args: List[Any] = []
+    if m and m.group(2):
+        for a in m.group(2).split(","):
+            args.append(a.strip().strip('"'))
+    return (m.group(1) if m else label, args)
+
+
+def _rec_field(txt: str, name: str) -> Dict[str, str]:
+    m = re.search(name + r" \|-> \[(.*?)\]", txt, re.S)
+    return dict(re.findall(r'(\w+) \|-> "?(\w+)"?', m.group(1))) if m else {}
+
+
+def node_info(label: str) -> dict:
+    """Projection of a model state (only what the replay compares / needs)."""
+    txt = _unesc(label)
+    d: Dict[str, Any] = {}
+    m = re.search(r"now \|-> (\d+)", txt)
+    d["now"] = int(m.group(1)) if m else -1
+    m = re.search(r"ready \|-> (.*?),\s*\n\s*boundary", txt, re.S)
+    head = re.search(r'<<"(\w+)"(?:, "(\w+)")?>>', m.group(1)) if m else None
+    d["head"] = (head.group(1), head.group(2)) if head else None
+    d["pc"] = _rec_field(txt, "pc")
+    d["outcome"] = _rec_field(txt, "outcome")
+    m = re.search(r"scn = \[(.*?)\]", txt, re.S)
+    d["scn"] = dict(re.findall(r'(\w+) \|-> "?(\w+)"?', m.group(1))) if m else {}
+    return d
+
+
+def scenario_paths(cfg: str, *, timeout: float = 900, per_init: int = 4) -> tuple:
+    """Exhaustive TLC run of a Scripted config with a state-graph dump; returns every maximal
+    path from every initial state (= scenario), at most per_init per scenario."""
+    d = mktemp("c18dot")
+    dot = os.path.join(d, "g.dot")
+    res = run_tlc("ClientTimeouts", cfg, workers=8, timeout=timeout, dump_dot=dot, deadlock=False)
+    from engine.tlc import require_clean
+    require_clean(res, "ClientTimeouts scripted dump")
+    if not os.path.exists(dot):
+        raise MachineryError("TLC wrote no state graph for the scripted ClientTimeouts config")
+    nodes: Dict[str, str] = {}
+    adj: Dict[str, List[tuple]] = {}
+    inits: List[str] = []
+    for ln in open(dot):
+        ln = ln.rstrip("\n")
+        m = _re_edge.match(ln)
+        if m:
+            if m.group(1) != m.group(2):
+                adj.setdefault(m.group(1), []).append((m.group(2), _unesc(m.group(3))))
+            continue
+        m = _re_node.match(ln)
+        if m:
+            nodes[m.group(1)] = m.group(2)
+            if "style = filled" in m.group(3):
+                inits.append(m.group(1))
+    info: Dict[str, dict] = {}
+
+    def inf(n: str) -> dict:
+        if n not in info:
+            info[n] = node_info(nodes[n])
+        return info[n]
+
+    paths = []
+    for i0 in inits:
+        found = 0
+        stack = [(i0, [])]
+        while stack and found < per_init:
+            n, pth = stack.pop()
+            outs = adj.get(n, [])
+            if not outs or len(pth) > 200:
+                paths.append({"scn": inf(i0)["scn"], "steps": pth})
+                found += 1
+                continue
+            for dst, lab in outs:
+                stack.append((dst, pth + [(lab, inf(n), inf(dst))]))
+    import shutil
+    shutil.rmtree(d, ignore_errors=True)
+    return paths, res
+
+
+PHASE_OF_PC = {"new": "new", "start": "waiting", "PoolWait": "waiting", "DnsOwn": "waiting", "DnsWait": "waiting",
+               "SockConnect": "sock", "ConnMade": "connmade", "AwaitHeaders": "exchange", "BodyRead": "exchange"}
+
+
+def exec_for(loop: steploop.StepLoop, mc: dict, cutsel: int = 0, body_variant: int = 0) -> ToExec:
+    body = {"none": "none", "small": "small", "block": ("big", "chunked")[body_variant % 2]}[mc["Body"]]
+    return ToExec(loop, limit=mc["Limit"],
+                  to={"total": mc["TOtotal"] / 2, "connect": mc["TOconnect"] / 2,
+                      "sock_connect": mc["TOsockc"] / 2, "sock_read": mc["TOread"] / 2},
+                  body=body, expect100=mc["Expect100"], thr=mc["Thr"] / 2, big_chunk=mc["BigChunk"],
+                  chunked_resp=(cutsel % 2 == 0) or mc["BigChunk"], offset=mc["Offset"] / 2, cutsel=cutsel,
+                  horizon=mc["Horizon"] / 2)
+
+
+def model_phase(info: dict, q: str) -> str:
+    pc = info["pc"].get(q, "new")
+    if pc == "done":
+        return info["outcome"].get(q, "?")
+    return PHASE_OF_PC.get(pc, pc)
+
+
+def replay_path(ctx: Ctx, loop: steploop.StepLoop, path: dict, mc: dict, cutsel: int = 0,
+                body_variant: int = 0, src: str = "tlc-scenario") -> dict:
+    x = exec_for(loop, mc, cutsel, body_variant)
+    drift = None
+    for (label, before, after) in path["steps"]:
+        act, args = parse_action(label)
+        done = True
+        if act == "Run":
+            head = before["head"]
+            if head is None:
+                drift = "replay:run-on-empty"
+                break
+            if head[0] == "task":
+                lab = x.head_label()
+                if lab != head[1]:
+                    drift = f"ready-order:{head[1]}"
+                    break
+                x.step()
+            else:
+                x._run_nontask()
+                x.rec("step", who="")
+        elif act == "Start":
+            x.start(args[0])
+        elif act == "DnsDone":
+            done = x.dns_done()
+        elif act == "SockDone":
+            done = x.sock_done(args[0])
+        elif act == "PauseNext":
+            x.pause_writing("v")
+        elif act == "ResumeWriting":
+            done = x.resume_writing("v")
+        elif act == "Deliver":
+            done = x.deliver(args[0], args[1])
+        elif act == "Tick":
+            done = x.tick()
+        elif act == "CallerCancel":
+            x.cancel("v")
+        else:
+            raise MachineryError(f"C18: unknown model action {label}")
+        if not done:
+            drift = f"not-enabled:{act}"
+            break
+        ctx.action_cover[act] = ctx.action_cover.get(act, 0) + 1
+        o = x.events[-1]["obs"]
+        if o["t"] != after["now"] * 500:
+            drift = f"time:{act}"
+            break
+        if any(model_phase(after, q) != (o["ph"][q] if o["st"][q] == "pending" else o["st"][q]) for q in ("v", "b")):
+            drift = f"state:{act}:{after['pc'].get('v')}"
+            break
+    if drift:
+        ctx.drift(drift)
+    x.finish()
+    tr = x.trace(src)
+    tr["scn"] = path["scn"]
+    tr["drift"] = drift or ""
+    x.teardown()
+    return tr
+
+
+# ---------------------------------------------------------------- judging
+def judge(ctx: Ctx, traces: List[dict], label: str) -> List[Any]:
+    if not traces:
+        return []
+    verdicts, res = validate_batch("ClientTimeoutsTrace", "ClientTimeoutsTrace.cfg", traces)
+    ctx.add_trace_batch(len(traces), res)
+    for t, v in zip(traces, verdicts):
+        key = json.dumps([[e["ev"], e["who"], e["part"], e["obs"]["st"].get("v")] for e in t["events"]])
+        if len(t["events"]) >= 6:
+            ctx.distinct.add(hash(key))
+        if not v.ok:
+            ev = t["events"][v.pos] if v.pos < len(t["events"]) else {}
+            hist = [f"{e['ev']}({e['who']}{':' + e['part'] if e['part'] else ''})" for e in t["events"][max(0, v.pos - 5):v.pos + 1]]
+            info = v.info if isinstance(v.info, str) else ""
+            kinds = "+".join(k for k, d in t["cfg"]["to"].items() if d)
+            prevph = t["events"][v.pos - 1]["obs"]["ph"].get("v") if v.pos > 0 else "?"
+            sig = f"{v.clause}[{info}] timeouts={kinds or 'none'} victim-phase={prevph} after " + ",".join(hist)
+            ctx.violation(v.clause, sig, {"trace": t, "failed_at": v.pos, "label": label}, "trace")
+    t0 = traces[0]
+    ctx.sample({"src": t0["src"], "cfg": t0["cfg"], "scn": t0.get("scn"),
+                "events": [[e["ev"], e["who"], e["part"], e["obs"]["t"], e["obs"]["st"]["v"], e["obs"]["ph"]["v"]]
+                           for e in t0["events"][:14]]})
+    return verdicts
